@@ -26,17 +26,60 @@ def accessor_shapes(rep):
                           n is not None and not missing, {'missing': missing}, undecided_if_false=True)
 
 
+def _expected_unquoted(v):
+    if v is None:
+        return None
+    if v[0] in ('"', "'", '`') and v[0] == v[-1]:
+        return v[1:-1]
+    return v
+
+
+def replay_remove_quotes(rep):
+    """counter-models of the remove_quotes obligations replayed on the real function"""
+    from pyvc.core import import_repo, FAILED
+    import_repo()
+    from sqlparse import utils
+    for ob in rep.obls:
+        if ob.status != FAILED or ob.fn != 'sqlparse.utils.remove_quotes':
+            continue
+        m = (ob.detail or {}).get('model') or {}
+        v = (m.get('in_val') or {}).get('str')
+        if not isinstance(v, str) or not v:
+            continue
+        try:
+            got = utils.remove_quotes(v)
+        except Exception as e:      # noqa
+            got = 'raised %s' % type(e).__name__
+        if got != _expected_unquoted(v):
+            ob.witness = {'input': ('remove_quotes', v), 'failure': 'remove_quotes(%r) == %r, the property demands %r'
+                          % (v, got, _expected_unquoted(v)), 'reproduced': True}
+
+
 def run(rep):
     return generic.run_generic(
-        rep, [('sqlparse.utils.remove_quotes', None), ('sqlparse.utils.remove_quotes', 'None')] + tc.NAV_FUNCS,
-        structural=[accessor_shapes, tc.identity_side_conditions],
-        assumptions=['proved: quote removal, and the neighbour-search helpers the accessors are built from (first match, '
-                     'whitespace skipping); the accessors themselves (get_real_name, get_alias, get_name, get_parent_name, '
-                     'has_alias over the Identifier shapes of DESIGN 5 C12) and the grouping that establishes those shapes are '
-                     'covered by shape obligations over the AST and by the bounded stand-in (64 119 cases quick, the full '
-                     'product of 198 000 cases thorough), not yet by SMT contracts'],
+        rep, [('sqlparse.utils.remove_quotes', None), ('sqlparse.utils.remove_quotes', 'None'),
+              ('sqlparse.sql.TokenList.get_parent_name', None)] + tc.NAV_FUNCS,
+        structural=[replay_remove_quotes, accessor_shapes, tc.identity_side_conditions],
+        assumptions=['proved: quote removal (against its specification function), get_parent_name (the qualifier is the '
+                     'unquoted value of the nearest non-whitespace child before the first dot, None without one; children '
+                     'values non-empty is the stated precondition, C01/I3), and the neighbour-search helpers the accessors '
+                     'are built from (first match, whitespace skipping); the other accessors (get_real_name, get_alias, '
+                     'get_name, has_alias over the Identifier shapes of DESIGN 5 C12) and the grouping that establishes '
+                     'those shapes are covered by shape obligations over the AST and by the bounded stand-in (64 119 cases '
+                     'quick, the full product of 198 000 cases thorough), not by SMT contracts',
+                     'str.strip(chars) is modelled only for a one-character argument (s == c* ++ result ++ c*)'],
         trusted=['CPython re engine (lexing of names and quotes)'])
 
 
 def replay(path):
+    import json
+    d = json.load(open(path))
+    inp = (d.get('witness') or {}).get('input')
+    if isinstance(inp, list) and inp and inp[0] == 'remove_quotes':
+        from pyvc.core import import_repo
+        import_repo()
+        from sqlparse import utils
+        got = utils.remove_quotes(inp[1])
+        print('remove_quotes(%r) -> %r ; demanded %r' % (inp[1], got, _expected_unquoted(inp[1])))
+        return 1 if got != _expected_unquoted(inp[1]) else 0
     return generic.replay_generic('C12', path)
